@@ -291,9 +291,21 @@ def check_case(ctx, cfgname, events, stream, lines, impls, cases, link_lines=Non
     # everything closed at end of input
     if soup.currentTag is not soup or len(soup.tagStack) != 1:
         ctx.violation("open elements remain after end of input", case=case, stream=stream)
-    lines.append(f"c03 build {fmt_cfg(cfg)} {';'.join(events) if events else '-'}")
+    if attempts:
+        # the strategy loop of BeautifulSoup.__init__ as modelled (Model/Builder.lean parseLoop): rejected attempts, then the events
+        lines.append(f"c03 retry {fmt_cfg(cfg)} {'|'.join((';'.join(a) if a else '-') for a in list(attempts) + [events])}")
+    else:
+        lines.append(f"c03 build {fmt_cfg(cfg)} {';'.join(events) if events else '-'}")
     impls.append(got)
     cases.append(case)
+    if void is not None:
+        from bs4.element import Tag
+        rule = "*" if void == "*" else (".".join(void) if void else "-")
+        for nm in sorted({t.name for t in soup.find_all(True)}):
+            t = soup.find(nm)
+            lines.append(f"c03 void {rule} {nm}")
+            impls.append("1" if t.can_be_empty_element else "0")
+            cases.append(case | {"tag": nm})
     if link_lines is not None:
         link_lines.append(f"c03 link {fmt_cfg(cfg)} {';'.join(events) if events else '-'}")
         link_impls.append(link_dump(soup))
